@@ -99,8 +99,17 @@ pub fn sibling(t: &mut Tape, source: &str) -> String {
     out
 }
 
-pub const TX3C: &str = "/verif/sim/target-tx3c/release/tx3c";
-pub const SHIM: &str = "/verif/sim/target/getrandom_shim.so";
+const TX3C_DEFAULT: &str = "/verif/sim/target-tx3c/release/tx3c";
+const SHIM_DEFAULT: &str = "/verif/sim/target/getrandom_shim.so";
+
+/// the tx3c binary and the shim built by `./check setup`; VERIF_TX3C / VERIF_SHIM point a scratch
+/// regression lane (tools/regress_lane.sh) at its own builds
+pub fn tx3c_path() -> String {
+    std::env::var("VERIF_TX3C").unwrap_or_else(|_| TX3C_DEFAULT.to_string())
+}
+pub fn shim_path() -> String {
+    std::env::var("VERIF_SHIM").unwrap_or_else(|_| SHIM_DEFAULT.to_string())
+}
 
 thread_local! {
     /// extra command-line arguments of this world's tx3c runs (profiles, env files)
@@ -113,7 +122,7 @@ fn run_tx3c(src_path: &str, out_path: &str, hseed: u64) -> Result<Vec<u8>, Strin
 
 fn run_tx3c_keep(src_path: &str, out_path: &str, hseed: u64, keep: bool) -> Result<Vec<u8>, String> {
     let extra: Vec<String> = TX3C_EXTRA.with(|e| e.borrow().clone());
-    let st = Command::new(TX3C)
+    let st = Command::new(tx3c_path())
         .arg("build")
         .arg(src_path)
         .arg("--emit")
@@ -121,7 +130,7 @@ fn run_tx3c_keep(src_path: &str, out_path: &str, hseed: u64, keep: bool) -> Resu
         .arg("-o")
         .arg(out_path)
         .args(&extra)
-        .env("LD_PRELOAD", SHIM)
+        .env("LD_PRELOAD", shim_path())
         .env("VERIF_HASH_SEED", hseed.to_string())
         .stdout(Stdio::null())
         .stderr(Stdio::null())
@@ -321,7 +330,7 @@ pub fn world_c18(tier: Tier, world_no: u64, mut t: Tape) -> WorldReport {
     // ---- L2: the shipped binary, fresh processes under the entropy shim
     let mut l2 = vec![];
     if do_process {
-        if !std::path::Path::new(TX3C).exists() || !std::path::Path::new(SHIM).exists() {
+        if !std::path::Path::new(&tx3c_path()).exists() || !std::path::Path::new(&shim_path()).exists() {
             rep.harness_error = Some("tx3c binary or entropy shim not built (run ./check setup)".into());
             return rep;
         }
